@@ -318,5 +318,11 @@ static inline uint64_t fnv1a(uint64_t h, uint64_t v)
 #ifndef SIM_ASAN
 # define SIM_ASAN 0
 #endif
+/* builds whose sanitizer must see the real free(): no canaries, no quarantine in the sim heap */
+#if SIM_ASAN || defined(SIM_TSAN)
+# define SIM_REALFREE 1
+#else
+# define SIM_REALFREE 0
+#endif
 
 #endif
